@@ -16,6 +16,10 @@ def main(tier, only=None):
                                defines=("OPERAND=" + op, "EXPAND=" + ex),
                                desc="read_include_filename on operand line %s whose macro expansion is the line %s" % (op, ex)))
         e1.run_set(chk, "c13/include.c", hs)
+    if want("include"):
+        e1.run_set(chk, "c13/depth.c", [e1.H("h_include_depth", "include/nesting-depth-bounded", unwind=12, timeout=300, native=False),
+                                         e1.H("h_include_depth", "include/nesting-depth-bounded/limit-path", unwind=12, timeout=300, native=False, defines=("WIT_LIMIT",))])
+        chk.bounds += ["#include nesting: the real include_file() with the includer's depth symbolic in 0..300"]
     if want("diag"):
         e1.run_set(chk, "c13/diag.c", [
             e1.H("h_error_at_location", "diag/error_at-line-exists", unwind=9, timeout=600,
